@@ -124,7 +124,7 @@ Theorem body_any_schedule : forall grow mode early (cl limit : N) stream (sched 
 Proof. exact body_any_schedule. Qed.
 
 (** Non-vacuity *)
-Example grow_meets_hypothesis : grow_ok vec_grow.
+Example vec_grow_keeps_promise : grow_ok vec_grow.
 Proof. exact vec_grow_ok. Qed.
 
 Example head_limit_ex :
